@@ -25,6 +25,7 @@ RULES = [
     Rule('C09.R7', 'recognising a loop marker does not switch off the recognition of the next marker of the same kind (the duplicate-marker validation must see every marker)', 3),
     Rule('C09.R8', 'a loop setting copied into the live loop state by rewind() is also stored there by its setter (it takes effect without a rewind)', 1),
     Rule('C09.R9', 'the events that share the row with the loop-end marker are skipped only on passes that jump back', 1),
+    Rule('C09.R10', 'every loop marker of a row is ordered ahead of the controllers and notes of that row', 1),
     Rule('C09.R5', 'loop markers raise the loop flags only while looping is enabled', 2),
 ]
 EXPLANATION = ('CFG dominance / post-dominance over BW_MidiSequencer::processEvents (jump sites vs. the counted controller-123 loops), guard facts for the '
@@ -187,6 +188,8 @@ def analyse(facts, tier):
     obls += r6_row_snapshot(facts)
     obls += r7_idempotent(facts)
     obls += r8_setter_live(facts)
+    obls += r8_count_mapping(facts)
+    obls += r10_markers_first(facts)
     obls += r2_begin_is_loop_start(facts)
     obls += r9_loop_end_row(facts)
     return obls
@@ -602,4 +605,64 @@ def r9_loop_end_row(facts):
                        'the row is left at the loopEnd marker on every pass, also on the one after which no jump follows: controllers, program changes and note-ons of the same track on the loopEnd tick are never delivered (song 60@0 loopStart@96 61@96 62@192 loopEnd@288 63@288 64@384, count 2: note 63 is played on no pass)'))
     if n < 1:
         raise build.AnalysisBroken('C09.R9: the break at the loop-end marker not found in processEvents')
+    return out
+
+
+def r8_count_mapping(facts):
+    """public repeat counts: -1 = for ever, 0 and 1 = play once, N = N passes; internally the count has base 0 (N - 1 repeats) and -1
+    stays -1.  Abstract evaluation of setLoopsCount on singleton arguments: the value stored in m_loopCount must be -1, 0, 0, 1, 3
+    for the arguments -1, 0, 1, 2, 4 (a conversion that also maps 0 to -1 turns "play once" into "repeat for ever")."""
+    from ..e2 import Engine2, St, V
+    out = []
+    fn = facts.fn(SEQ + '::setLoopsCount')
+    want = {-1: -1, 0: 0, 1: 0, 2: 1, 4: 3}
+    bad = None
+    for arg, exp in sorted(want.items()):
+        eng = Engine2(facts, {}, {}, {})
+        got = []
+        def hook(e_, e, st, got=got):
+            for x in walk(e):
+                ap = assign_parts(x)
+                if ap and strip(ap[0]).get('k') == 'MemberExpr' and short(strip(ap[0])['n']) == 'm_loopCount':
+                    got.append(e_.ev(ap[1], st))
+        eng.value_hooks.append(hook)
+        s0 = St(); s0.env[('v', fn.params[0]['id'])] = V(arg, arg)
+        eng.run(fn, s0, record=True)
+        v = got[-1] if got else None
+        if v is None or not v.is_point() or v.lo != exp:
+            bad = (arg, v, exp)
+            break
+    out.append(Obl('C09.R8', fn.name, 'public count -> internal count', fn.loc, 'discharged' if bad is None else 'finding',
+                   why='-1, 0, 1, 2, 4 are stored as -1, 0, 0, 1, 3' if bad is None else
+                   'opn2_setLoopCount(%d) stores %s instead of %d: %s' % (bad[0], bad[1], bad[2], 'the count that means "play once" becomes "repeat for ever"' if bad[2] == 0 else 'the number of passes is off')))
+    return out
+
+
+def r10_markers_first(facts):
+    """MidiTrackRow::sortEvents puts a group of meta events in front of the controllers and notes of the row.  The loop handling of
+    processEvents relies on it: the events of the loopEnd tick that follow the marker are "after the loop end" (skipped on passes that
+    jump, delivered once when the loop is left), those of the loopStart tick are inside the loop.  Every ST_LOOP* enumerator must be
+    named by the condition that selects that group."""
+    out = []
+    fns = [f for f in facts.all_fns() if short(f.name) == 'sortEvents' and f.tree is not None]
+    if not fns:
+        raise build.AnalysisBroken('C09.R10: sortEvents not found')
+    fn = fns[0]
+    loop_enums = {k: v for k, v in facts.enums.items() if k.startswith('ST_LOOP')}
+    named = set()
+    hit = None
+    for i, blk in fn.cfg.blocks.items():
+        pass
+    for x in walk(fn.tree):
+        if isinstance(x, dict) and x.get('k') == 'IfStmt' and x.get('cond') is not None:
+            vals = {const_of(y) for y in walk(x['cond']) if isinstance(y, dict) and y.get('enumc')}
+            if loop_enums.get('ST_LOOPSTART') in vals or loop_enums.get('ST_LOOPEND') in vals:
+                named |= vals
+                hit = x
+    if hit is None:
+        raise build.AnalysisBroken('C09.R10: the condition that selects the leading meta group of sortEvents not found')
+    missing = sorted(k for k, v in loop_enums.items() if v not in named)
+    out.append(Obl('C09.R10', fn.name, 'leading meta group names every loop marker', '%s:%s' % (fn.file, hit.get('ln')), 'discharged' if not missing else 'finding',
+                   why='%d loop marker kinds are ordered first' % len(loop_enums) if not missing else
+                   '%s is not in the group that is ordered ahead of the row: a controller, program change or pitch bend on the tick of that marker is handled before the marker, i.e. on the wrong side of the loop boundary (repeated on every pass / skipped)' % ', '.join(missing)))
     return out
